@@ -378,6 +378,24 @@ def prop_history(case):
                         seen.add("resave-to-own-path")
                     save(d, o["object"], o["set"], o["k"] + 1, step["path"], step["overwrite"])
                     seen.add("resave-loaded-object")
+            elif step["op"] == "refused_edit":
+                # an edit of a loaded object that is refused (an expression that cannot be evaluated), then taken back: the object
+                # is what it was and can be evaluated and saved again
+                o = objects.get(step["from"])
+                pars = [p for p in o["object"].all() if p.expression is not None] if o else []
+                if pars:
+                    par, before = pars[0], snapshot(o["object"])
+                    old = par.expression
+                    par.expression = "1 / ($no.such_label - 1)"
+                    try:
+                        o["object"].update_parameter_expression()
+                    except Exception:  # noqa: BLE001
+                        seen.add("refused-edit-then-repair")
+                    par.expression = old
+                    with expect_ok(f"{base}.reevaluation_after_refused_edit"):
+                        o["object"].update_parameter_expression()
+                    after = snapshot(o["object"])
+                    check(exact_equal(before, after), f"{base}.changed_by_refused_edit", lambda: f"{before} -> {after}")
             else:
                 raise AssertionError(f"generator: step {step}")
         # every file is decided at the end (also those that were never loaded in between)
